@@ -202,6 +202,11 @@ func (C05) Run(t *testing.T, sc *core.Scenario, res *core.Result) {
 		}
 		hist = append(hist, o)
 		afterStop := cfg.StopS != nil && op.T > *cfg.StopS*1000
+		if cfg.StopS != nil && op.T == *cfg.StopS*1000 && o.typ == "static" {
+			// The statement leaves the type at the stop instant itself open. A static MPD there is treated as "after stop"
+			// (its publishTime is the stop time, so the change instant is the stop instant).
+			afterStop = true
+		}
 		if afterStop {
 			res.Count("probe.after-stop")
 			// (8) static with duration stop-start
@@ -290,7 +295,7 @@ func (C05) Run(t *testing.T, sc *core.Scenario, res *core.Result) {
 			if cfg.StopS != nil {
 				stopMS = *cfg.StopS * 1000
 			}
-			if number1 && y.t <= stopMS && !same {
+			if number1 && y.t < stopMS && !same { // the type at the stop instant itself is left open
 				res.Violate("C05.number-mpd-constant", merge(feat, core.Sig("kind", "number-mpd-changes")), "Number MPDs at %d and %d differ", x.t, y.t)
 			}
 			// (8) no further change after stop
